@@ -1163,6 +1163,88 @@ def check_circuit(ctx, inp):
     return True
 
 
+def check_circuit_history(ctx, inp):
+    """Circuit.inverse() along a history of uses.  inp = {"nq", "gates": [...], "extra": [...], "ops": [...]};
+    ops (each followed by the oracle  C.inverse() * C = 1  on the CURRENT C, with as many gates as C):
+      "inverse"            Ci = C.inverse()
+      "extend-returned"    append / prepend the extra gates to the circuit the last inverse() returned
+      "append" / "prepend" add an extra gate to C through the builder API
+      "pop"                edit the public list C.gates directly
+      "twice"              C.inverse().inverse() has the matrix of C
+    and every circuit returned earlier must still have the matrix it had when it was returned, unless the harness itself
+    extended it.  Returns False when skipped."""
+    import qib
+    from copy import copy
+    world = World(inp["nq"])
+    try:
+        gates = [build(s, world) for s in inp["gates"]]
+        extra = [build(s, world) for s in inp["extra"]]
+        C = qib.Circuit(gates)
+        fields = qib.Circuit(gates + extra).fields()
+        if sum(f.lattice.nsites for f in fields) > 7 or any(len(g.particles()) != g.num_wires for g in gates + extra):
+            return False
+    except Exception:
+        return False
+    returned = []        # (circuit object, matrix when returned, touched by the harness)
+    k_extra = 0
+
+    def mat(c):
+        return dense(c.as_matrix(fields))
+
+    def oracle(step):
+        Ci = C.inverse()
+        M, Mi = mat(C), mat(Ci)
+        if len(Ci.gates) != len(C.gates):
+            ctx.fail("circuit-inverse:history:wrong-number-of-gates", dict(inp, step=step), len(C.gates), len(Ci.gates))
+        if maxerr(Mi @ M, np.eye(M.shape[0])) > TOL:
+            ctx.fail("circuit-inverse:history:not-inverse-of-current-circuit", dict(inp, step=step), "C.inverse() C = I",
+                     maxerr(Mi @ M, np.eye(M.shape[0])))
+        for j, (c, m0, touched) in enumerate(returned):
+            if not touched and maxerr(mat(c), m0) > TOL:
+                ctx.fail("circuit-inverse:history:earlier-result-changed", dict(inp, step=step, earlier=j),
+                         "a circuit returned by inverse() keeps its matrix", maxerr(mat(c), m0))
+        returned.append([Ci, Mi, False])
+
+    try:
+        for step, op in enumerate(inp["ops"]):
+            if op == "inverse":
+                pass
+            elif op == "extend-returned":
+                if returned:
+                    tgt = returned[-1]
+                    tgt[0].append_gate(extra[k_extra % len(extra)])
+                    tgt[0].prepend_circuit(qib.Circuit([extra[(k_extra + 1) % len(extra)]]))
+                    tgt[2] = True
+                    k_extra += 1
+            elif op == "append":
+                C.append_gate(extra[k_extra % len(extra)])
+                k_extra += 1
+            elif op == "prepend":
+                C.prepend_gate(extra[k_extra % len(extra)])
+                k_extra += 1
+            elif op == "pop":
+                if len(C.gates) > 1:
+                    C.gates.pop()
+            elif op == "twice":
+                M2 = mat(C.inverse().inverse())
+                if maxerr(M2, mat(C)) > TOL:
+                    ctx.fail("circuit-inverse:history:double-inverse-differs", dict(inp, step=step), "C", maxerr(M2, mat(C)))
+            else:
+                raise ValueError(op)
+            oracle(step)
+    except Exception as e:
+        ctx.fail("circuit-inverse:history:raises", inp, "history evaluates", repr(e)[:300])
+    return True
+
+
+CIRCUIT_HISTORIES = [
+    ["inverse", "extend-returned", "inverse", "twice"],
+    ["inverse", "inverse", "extend-returned", "append", "extend-returned", "inverse"],
+    ["append", "inverse", "prepend", "extend-returned", "pop", "inverse"],
+    ["inverse", "pop", "twice", "extend-returned", "prepend"],
+]
+
+
 def circuit_level(ctx):
     """C03 'for every circuit C and register': theorem file coq/props/C03i.v (compiled after C03c.v, against the
     regenerated Circuit.inverse form) + oracle sweep over random multi-gate circuits of non-commuting gates"""
@@ -1173,7 +1255,9 @@ def circuit_level(ctx):
     ctx.rules.append("circuit level: random circuits of 2-%d bound gates (elementary / general / prepare / controlled / multiplexed / "
                      "block-encoding / time-evolution trees of <= 3 wires) on 2-5 qubits (+ operator fields, register <= 7 wires); oracle: "
                      "C.inverse() C = C C.inverse() = 1, C.inverse() = G_1^dagger ... G_k^dagger, same particles gate by gate in reversed "
-                     "order. non-trivial = circuit whose matrix differs from the matrix of the reversed circuit (order matters)"
+                     "order; histories of uses (inverse / extend the returned circuit / inverse again / change C through the builder API or "
+                     "its public gate list / inverse twice) with C.inverse() C = 1 on the current C and earlier results unchanged. "
+                     "non-trivial = circuit whose matrix differs from the matrix of the reversed circuit (order matters)"
                      % (8 if ctx.thorough else 6))
     ctx.lib(["Gates/CircInverse"])
     forbidden_gate(ctx, os.path.join(COQ, "theories", "Gates", "CircInverse.v"))
@@ -1209,6 +1293,14 @@ def circuit_level(ctx):
             pass
         if done <= 2:
             ctx.sample({"circuit": [kinds_of(s)[:6] for s in inp["gates"]], "nq": inp["nq"]}, cap=7)
+        # histories of uses of inverse() on every 4th circuit (all of them in the thorough tier)
+        if ctx.thorough or done % 4 == 1:
+            g2 = Gen(ctx.rng, exact=True, bind=True)
+            extra = [g2.leaf(1, [ctx.rng.randrange(inp["nq"])]) for _ in range(3)]
+            hist = {"comp": True, "what": "circuit-history", "nq": inp["nq"], "gates": inp["gates"], "extra": extra,
+                    "ops": CIRCUIT_HISTORIES[(done // 4) % len(CIRCUIT_HISTORIES)]}
+            if check_circuit_history(ctx, hist):
+                ctx.count("circuit_histories")
 
 
 def replay(ctx, pid, data):
